@@ -113,8 +113,14 @@ def l5(rep):
 
 def run(tier, only=None):
     rep = common.Report("C19", tier, EXPLANATION)
-    # ---- L4 first: it needs nothing from C04 ----
-    l4(rep)
+    # ---- L5 and L4 first: they need nothing from C04 ----
+    l5(rep)
+    try:
+        l4(rep)
+    except AnalysisBroken as e:
+        if not rep.violations:
+            raise
+        rep.note("L4 not completed: %s" % e)
     # ---- L1 ----
     try:
         r4 = c04_builtins.run(tier)
@@ -221,7 +227,6 @@ def run(tier, only=None):
             rep.violation("L2", key, "util.c:%d (DFloatSprint)" % c["l"],
                           "d == 0.0 is printed as the fixed text %s whatever its sign: a folded constant -0.0 becomes +0.0 in generated C, "
                           ".fm and Lisp output (1/x changes from -inf to +inf)" % texts)
-    l5(rep)
     # ---- L3 ----
     f_buf = common.extract("buffer.c", all_trees=True)
     f_lib = common.extract("lib.c", trees=["libPutHeader", "libGetHeader"])
